@@ -74,6 +74,7 @@ class SimWorld:
         self.shadow_orders = []  # orders accepted by place_order (incl. replacements) in acceptance order
         self.rc_history = {}
         self.replacements = set()
+        self.owner_override = {}  # id(order) -> client it was (re)submitted through, when not the strategy's usual one
         self.true_reset = {}  # (strategy, lookup) -> time the last trade on the runner was observed complete
         self.completed_seen = {}  # id(order) -> (status, size_matched) when first observed complete at a boundary
         self.left_live = set()
@@ -264,7 +265,39 @@ class SimWorld:
             guard = guard and not (target.size_remaining - red < 0)
         n_pk = len(self.lab.packages)
         n_ops = len(strat.op_results)
-        if kind == "place_existing":
+        if kind == "resubmit" and self.cfg.get("discipline"):
+            return None  # (acknowledgement discipline is modelled for fresh placements only)
+        if kind == "resubmit":
+            # an order that a control refused (VIOLATION, never sent, not in the blotter) is submitted again, through
+            # the strategy's usual client or - account fail-over - through another one; judged like a placement
+            from flumine.exceptions import FlumineException
+
+            refused = [o for o in strat.my_orders if o.status is not None and sname(o.status) == "VIOLATION" and o.id not in market.blotter
+                       and o.market_id == market.market_id]
+            if not refused:
+                return None
+            target = refused[op.get("o", 0) % len(refused)]
+            ci = strat.sspec.get("client", 0)
+            if op.get("other_client") and len(self.lab.clients) > 1:
+                ci = (ci + 1) % len(self.lab.clients)
+            client = self.lab.clients[ci]
+            before = self.snap_new(target)
+            res = simlab.OpResult()
+            res.op, res.order, res.target, res.error, res.result = op, target, None, None, None
+            try:
+                res.result = market.place_order(target, client=client)
+            except FlumineException as ex:
+                res.error = "%s: %s" % (type(ex).__name__, ex)
+            kind = "place"
+            op = dict(op, op="place", r=[i for i, r_ in enumerate(self.spec["runners"]) if (r_["id"], r_.get("hc", 0)) == (target.selection_id, target.handicap)][0],
+                      side=target.side, type={"LIMIT": "LIMIT", "LIMIT_ON_CLOSE": "LOC", "MARKET_ON_CLOSE": "MOC"}[target.order_type.ORDER_TYPE.name])
+            if res.result is True and not res.error:
+                self.classes.add("refused-order-resubmitted" + ("-through-another-client" if ci != strat.sspec.get("client", 0) else ""))
+                if ci != strat.sspec.get("client", 0):
+                    self.owner_override[id(target)] = client
+                    self.nontrivial = True
+            target = None
+        elif kind == "place_existing":
             # a strategy error: placing an order object a second time
             from flumine.exceptions import FlumineException
 
@@ -770,6 +803,10 @@ class SimWorld:
         for o in self.shadow_orders:
             strat = o.trade.strategy
             owner = self.lab.clients[strat.sspec.get("client", 0)]  # the client the strategy trades through
+            if id(o) in self.owner_override:
+                owner = self.owner_override[id(o)]
+            elif id(o) in self.replacements:
+                owner = next((self.owner_override[id(x)] for x in o.trade.orders if id(x) in self.owner_override), owner)
             if o.client is not owner:
                 self.fail("order-client", ("replacement" if id(o) in self.replacements else "placed",),
                           "order belongs to client %s but its strategy trades through %s" % (o.client.username if o.client else None, owner.username))
@@ -887,7 +924,7 @@ def replay_trace(world_cls, checks, trace):
 
 def make_machine(world_cls, checks, cfg_strategy, rule_weights=None):
     """Hypothesis wrapper: generates the config and trace entries; the world executes them."""
-    rw = dict(book=4, time=1, suspend=1, inplay=1, remove=1, close=1, place=6, follow=6, place_existing=1, txn=0, bulk=0)
+    rw = dict(book=4, time=1, suspend=1, inplay=1, remove=1, close=1, place=6, follow=6, place_existing=1, txn=0, bulk=0, resubmit=0)
     rw.update(rule_weights or {})
 
     class Machine(RuleBasedStateMachine):
@@ -1103,6 +1140,11 @@ def make_machine(world_cls, checks, cfg_strategy, rule_weights=None):
             if force:
                 e["force"] = True
             self._do(e)
+
+        @precondition(lambda self: rw["resubmit"] > 0)
+        @rule(si=st.integers(0, 2), o=st.integers(0, 7), other=st.booleans())
+        def resubmit(self, si, o, other):
+            self._do({"_": "req", "op": "resubmit", "si": si, "o": o, "other_client": other})
 
         @precondition(lambda self: rw["txn"] > 0)
         @rule(data=st.data())
